@@ -135,4 +135,15 @@ theorem body_dquote_quotes (v : Str) (h : ∃ c ∈ v, c = ',' ∨ c = ';' ∨ c
 example : Gen.BodiesParser.dquote "a,b".toList Bodies.quotableSearch = "\"a,b\"".toList := by decide
 example : Gen.BodiesParser.q_join ["a;b".toList, "c".toList] [','] Bodies.quotableSearch = "\"a;b\",c".toList := by decide
 
+/-- `parser.q_split` regenerated (wave 3: `for i, ch in enumerate(st)` with `break`, `st[cursor:i]`, a flag
+    that starts as the int 0): equal to the model `qSplit` for a one-character separator; the int
+    `maxsplit` of the source is `Bodies.maxsplitOf m` (`-1`, any negative value: no limit). -/
+theorem body_q_split (st : Str) (c : Char) (m : Int) :
+    Gen.BodiesParser.q_split st [c] m = qSplit st c (Bodies.maxsplitOf m) :=
+  Bodies.q_split_eq st c m
+
+example : Gen.BodiesParser.q_split "a,\"b,c\",d".toList [','] (-1) = ["a".toList, "\"b,c\"".toList, "d".toList] := by
+  decide
+example : Gen.BodiesParser.q_split "K=a=b".toList ['='] 1 = ["K".toList, "a=b".toList] := by decide
+
 end ICal.C08
